@@ -230,14 +230,14 @@ def r82(chk, m):
     need(n >= 2, 'macros that declare counters from their arguments (\\newcounter, \\newtheorem) not found')
 
 
-def macro_heap(m, cls, counter='equation', args='', level=None, **attrs):
+def macro_heap(m, cls, counter='equation', args='', level=None, depth=2, **attrs):
     """A macro instance on the heap with a document, a context and the counter table of counter_heap()."""
     table = counter_heap(m)
     Counter = m.cls('plasTeX', 'Counter')
     table['equation'] = A.Obj('counter:equation', {'name': 'equation', 'resetby': 'chapter', 'value': 5, 'counters': table}, cls=Counter)
     ctx = A.Obj('context', {'counters': table, 'currentlabel': None})
     doc = A.Obj('document', {'context': ctx})
-    me = A.Obj('macro', dict({'counter': counter, 'args': args, 'ownerDocument': doc, 'config': {'document': {'sec-num-depth': 2}}}, **attrs), cls=cls)
+    me = A.Obj('macro', dict({'counter': counter, 'args': args, 'ownerDocument': doc, 'config': {'document': {'sec-num-depth': depth}}}, **attrs), cls=cls)
     if level is not None:
         me.attrs['level'] = level
     return {'self': me, '__ctx': ctx, '__table': table, 'tex': A.Sym('tex', truthy=True)}
@@ -253,6 +253,8 @@ def run_macro(m, chk, fn, env, cls, inline=7, filt=None):
     outs = it.run_function(fn, env=env)
     chk.paths += len(outs)
     res = set()
+    if it.unknown_branches or it.imprecise:
+        return {('undetermined', 'TOP', 'TOP', 'TOP', 'TOP: %s' % (it.unknown_branches + it.imprecise)[0])}
     for kind, s2, v in outs:
         me, ctx, table = s2.env['self'], s2.env['__ctx'], s2.env['__table']
         val = table['equation'].attrs.get('value')
@@ -262,8 +264,8 @@ def run_macro(m, chk, fn, env, cls, inline=7, filt=None):
     return res
 
 
-def r83(chk, m):
-    R = chk.rule('R8.3', 'who steps and when, on a small heap (equation counter at 5): the hooks preParse/preArgument/postArgument '
+def r83(chk, m, rule_id='R8.3'):
+    R = chk.rule(rule_id, 'who steps and when, on a small heap (equation counter at 5): the hooks preParse/preArgument/postArgument '
                  'partition the signature shapes so that the counter is stepped exactly once and the object becomes the current '
                  'label; a present * steps nothing and clears the counter of the instance; no declared counter: nothing happens; '
                  'postParse computes the number only down to the numbering depth; \\nonumber takes the step back', 12)
@@ -304,9 +306,11 @@ def r83(chk, m):
             chk.verdict(R, 'stepping: %s' % label, not bad, msg, chk.where(pre), 'stepped exactly once')
     rs = m.find_method(Macro, 'refstepcounter')
     chk.analysed(rs)
-    for label, counter, want in (('a declared counter is stepped and the object becomes the current label', 'equation', STEP),
-                                 ('no counter: nothing happens', None, ('return', 5, 'None', None, False))):
-        got = run_macro(m, chk, rs, macro_heap(m, Macro, counter), Macro)
+    ENDS0 = m.class_const(Macro, 'ENDSECTIONS_LEVEL')
+    for label, counter, want, lvl in (('a declared counter is stepped and the object becomes the current label', 'equation', STEP, 1),
+                                      ('an object deeper than the numbering depth is stepped and becomes the current label all the same', 'equation', STEP, 4),
+                                      ('no counter: nothing happens', None, ('return', 5, 'None', None, False), 1)):
+        got = run_macro(m, chk, rs, macro_heap(m, Macro, counter, level=lvl, ENDSECTIONS_LEVEL=ENDS0), Macro)
         chk.decide(R, 'refstepcounter: %s' % label, {repr(g) for g in got}, {repr(want)},
                    'refstepcounter with counter=%r gives %s, expected %s' % (counter, sorted(got, key=repr), want), chk.where(rs))
     pp = m.find_method(Macro, 'postParse')
@@ -317,9 +321,24 @@ def r83(chk, m):
                                             ('deeper than the numbering depth', 'equation', 3, False), ('not a sectioning unit', 'equation', ENDS + 1, True),
                                             ('no counter', '', 1, False)):
         env = macro_heap(m, Macro, counter, '', level=level, ENDSECTIONS_LEVEL=ENDS)
-        got = {g[4] for g in run_macro(m, chk, pp, env, Macro, inline=3, filt=A.private_only) if g[0] == 'return'}
+        got = {g[4] for g in run_macro(m, chk, pp, env, Macro, inline=3) if g[0] in ('return', 'undetermined')}
         chk.decide(R, 'postParse: %s' % label, got, {numbered},
                    'postParse with counter=%r, level=%r and sec-num-depth=2 %s a number (%s); expected %s' % (counter, level, 'computes' if got == {True} else 'does not always compute', sorted(got), numbered), chk.where(pp))
+    # the whole (configured depth x level) table, depth 0 and negative depths included
+    bad = []
+    undet = []
+    for depth in (-2, -1, 0, 1, 2, 3, 5):
+        for level in (-1, 0, 1, 2, 3, 4, 6):
+            env = macro_heap(m, Macro, 'equation', '', level=level, depth=depth, ENDSECTIONS_LEVEL=ENDS)
+            got = {g[4] for g in run_macro(m, chk, pp, env, Macro, inline=3) if g[0] in ('return', 'undetermined')}
+            want = depth >= level
+            if got != {want}:
+                (undet if len(got) != 1 else bad).append('depth %d, level %d: %s' % (depth, level, sorted(got)))
+    if undet and not bad:
+        chk.undecided(R, 'postParse: numbered exactly down to the configured depth (7 depths x 7 levels)', '; '.join(undet[:3]), chk.where(pp))
+    else:
+        chk.verdict(R, 'postParse: numbered exactly down to the configured depth (7 depths x 7 levels)', not bad,
+                    'a sectioning unit is numbered iff its level is not deeper than sec-num-depth; differs for %s' % '; '.join(bad[:4]), chk.where(pp))
     non = m.func('plasTeX.Base.LaTeX.Math', 'nonumber.invoke')
     chk.analysed(non)
     got = run_macro(m, chk, non, macro_heap(m, m.cls('plasTeX.Base.LaTeX.Math', 'nonumber'), None), m.cls('plasTeX.Base.LaTeX.Math', 'nonumber'))
